@@ -34,7 +34,10 @@ CONSTANTS MaxLen,      \* token-sequence length bound of the family alphabets
           Fams,        \* families whose types are constructed from literals
           Targets,     \* target types of Cast / Castable
           Versions,    \* subset of {"1.0", "1.1"}
-          Grid         \* "small" | "full": component grids of the date/time literals
+          Grid,        \* "small" | "full": component grids of the date/time literals
+          Lean         \* TRUE in the cast configurations: no non-ASCII look-alike literals and a short
+                       \* timezone list (the lexical configurations enumerate those; here they would only
+                       \* multiply the cast fan-out)
 
 VARIABLES val,    \* None, a literal [k |-> "lit", t, ts], a typed value or an error
           ver,    \* XSD version, fixed by the initial state
@@ -84,8 +87,8 @@ Mo  == {<<"01">>, <<"02">>, <<"13">>} \cup (IF Full THEN {<<"12">>, <<"00">>, <<
 Dy  == {<<"01">>, <<"29">>, <<"30">>, <<"32">>} \cup (IF Full THEN {<<"28">>, <<"31">>, <<"00">>, <<"1">>} ELSE {})
 (* timezones: none, Z, both zero spellings, whole and half hours of both signs, the +-14:00 limits and
    NEGATIVE SUB-HOUR offsets, whose hour field is zero so that only the '-' character carries the sign *)
-Tz  == {<<>>, <<"Z">>, <<"+14:00">>, <<"+14:01">>, <<"-00:00">>, <<" ">>, <<"+00:00">>, <<"+05:30">>, <<"-05:30">>,
-        <<"-14:00">>, <<"-00:30">>, <<"-00:01">>, <<"-00:59">>}
+Tz  == {<<>>, <<"Z">>, <<"+14:00">>, <<"+14:01">>, <<"-00:00">>, <<" ">>, <<"-00:30">>}
+       \cup (IF Lean THEN {} ELSE {<<"+00:00">>, <<"+05:30">>, <<"-05:30">>, <<"-14:00">>, <<"-00:01">>, <<"-00:59">>})
        \cup (IF Full THEN {<<"+13:60">>, <<"+5:30">>, <<"z">>, <<"Z", "Z">>} ELSE {})
 TzS == {<<>>, <<"Z">>, <<"+05:30">>, <<"+14:01">>, <<"-00:30">>, <<"-00:59">>}
 Hr  == {<<"00">>, <<"23">>, <<"24">>, <<"25">>}
@@ -202,6 +205,7 @@ NaBase(f) ==
                       <<"2000","Z">>, <<"2000","-","01","-14:00">>, <<"-","-","01","-","01","Z">>,
                       <<"-","-","-","01","+14:00">>, <<"-","-","01","-00:30">>}
 NonAsciiProbes(T) ==
+  IF Lean THEN {} ELSE
   UNION {SubstOne(Flat(b)) \cup PadOne(Flat(b)) : b \in {b \in NaBase(FamOf(T)) : InLexicalSpace(T, Flat(b), "1.1")}}
 Strs(T) == AllSeqs(Alphabet(FamOf(T)), FamLen(FamOf(T))) \cup Probes(T) \cup Cross \cup NonAsciiProbes(T)
 
